@@ -18,6 +18,7 @@ produce the same observations step by step; an independent oracle re-states C12 
 import logging
 import os
 import sys
+from common import poke  # noqa: E402
 
 import dsched
 from common import cbool, clist, cnat
@@ -487,7 +488,7 @@ def scenario_conc(s, pop, bop, nhandlers, line_yields):
         def values(self):
             labels.append((who(), "scan", 0))
             return dict.values(self)
-    ctx._rpc_object_map = LogDict(ctx._rpc_object_map)
+    poke(ctx, '_rpc_object_map', LogDict(ctx._rpc_object_map))
     router = ctx._message_router
     orig_unreg, orig_reg = router.unregister_message_handler, router.register_message_handler
 
